@@ -93,9 +93,11 @@ inline void compare_values(Ctx &ctx, const std::vector<double> &got, const std::
         ctx.close("C16.output-values", a, b, std::max(std::fabs(a), std::fabs(b)), 1e-13, [&]() { return what + " entry (" + std::to_string(cols ? i / (size_t)cols : 0) + "," + std::to_string(cols ? i % (size_t)cols : i) + ")"; });
     }
 }
-inline void compare_mat(Ctx &ctx, const Mat &got, const Mat &exp, const std::string &what) {
+inline void compare_mat(Ctx &ctx, const Mat &got, const Mat &exp, const std::string &what, bool vector = false) {
     ctx.count("matrix-compared");
-    VF_REQUIRE("C16.output-shape", got.rows == exp.rows && got.cols == exp.cols, what << ": the tool wrote a " << got.rows << " x " << got.cols << " matrix, the API sequence gives " << exp.rows << " x " << exp.cols);
+    bool shape = got.rows == exp.rows && got.cols == exp.cols;
+    if (vector) shape = (got.rows == 1 || got.cols == 1) && (size_t)got.rows * (size_t)got.cols == exp.v.size();   // a vector may be written as a row or as a column
+    VF_REQUIRE("C16.output-shape", shape, what << ": the tool wrote a " << got.rows << " x " << got.cols << " matrix, the API sequence gives " << exp.rows << " x " << exp.cols);
     compare_values(ctx, got.v, exp.v, exp.cols, what);
 }
 inline void compare_sparse(Ctx &ctx, const Sparse &got, const Sparse &exp, const std::string &what) {
